@@ -280,6 +280,9 @@ func freePort() string {
 	if s := os.Getenv("VERIF_SHARD"); s != "" {
 		fmt.Sscanf(s, "%d/", &shard)
 	}
+	if s := os.Getenv("VERIF_PORT_SHARD"); s != "" { // isolated child of a shard
+		fmt.Sscanf(s, "%d", &shard)
+	}
 	base := 20000 + (shard%20)*2000
 	for i := 0; i < 4000; i++ {
 		p := base + int(atomic.AddInt64(&portCtr, 1))%2000
